@@ -48,6 +48,8 @@ type WireMsg struct {
 type Party struct {
 	Name     string
 	Peer     string
+	// KeyName is the principal whose long-term key the party signs with
+	KeyName string
 	// Cc: further endpoints that receive everything this party sends (the peer's account is logged in
 	// from more than one client; the transport hands a message to all of them)
 	Cc []string
@@ -186,7 +188,7 @@ func (w *World) AddParty(name, peer string, pol Policy, version int) *Party {
 
 // AddPartyKey is AddParty with the long-term key of another principal (attacker-run endpoints).
 func (w *World) AddPartyKey(name, peer string, pol Policy, version int, keyName string) *Party {
-	p := &Party{Name: name, Peer: peer, Pol: pol, w: w, ErrMsg: true}
+	p := &Party{Name: name, Peer: peer, Pol: pol, w: w, ErrMsg: true, KeyName: keyName}
 	if version == 0 {
 		p.Conv = &otr3.Conversation{}
 	} else {
@@ -831,9 +833,39 @@ func (w *World) smpTerm(p *Party, initiator bool, sid int) []interface{} {
 	sess := w.resolveSSID(s.SSID)
 	peer := w.Reg.FPName(s.TheirKeyFP)
 	if initiator {
-		return []interface{}{p.Name, peer, sess[0], sess[1], sid}
+		return []interface{}{p.KeyName, peer, sess[0], sess[1], sid}
 	}
-	return []interface{}{peer, p.Name, sess[0], sess[1], sid}
+	return []interface{}{peer, p.KeyName, sess[0], sess[1], sid}
+}
+
+// Reinstall replaces p's conversation by a fresh one that signs with the long-term key of keyName: the user
+// lost the key and made a new one (same client: the instance tag stays). Policies stay; the peer keeps its
+// conversation object.
+func (w *World) Reinstall(p *Party, keyName string) {
+	old := otr3.VerifProject(p.Conv)
+	c := &otr3.Conversation{}
+	c.Rand = p.Rand
+	p.Priv, _ = DSAKey(keyName)
+	p.KeyName = keyName
+	c.SetOurKeys([]otr3.PrivateKey{p.Priv})
+	c.Policies = p.Conv.Policies
+	c.SetSecurityEventHandler(secH{p})
+	c.SetMessageEventHandler(msgH{p})
+	c.SetSMPEventHandler(smpH{p})
+	c.SetReceivedKeyHandler(keyH{p})
+	c.SetErrorMessageHandler(errH{p})
+	otr3.VerifSetInstanceTags(c, old.OurTag, 0)
+	p.Conv = c
+	p.lastCall = time.Time{}
+	p.watch = nil
+	p.SMPTerm, p.SMPRun = nil, 0
+	ev := M{"ev": "Reset", "p": p.Name, "i": w.N + 1, "pol": p.Pol.M(), "key": keyName}
+	w.N++
+	if w.Trace != nil {
+		b, _ := json.Marshal(ev)
+		w.Trace.Write(b)
+		w.Trace.WriteByte('\n')
+	}
 }
 
 // callerBuf returns the application's own buffer for a value it passes to the library again and again (the
